@@ -57,7 +57,7 @@ def _update_state(h, k, with_none, prev):
 
 for _k, _none, _prev in [(1, False, None), (2, False, None), (2, False, 0), (2, False, 1), (3, False, None), (3, False, 2),
                          (2, True, None), (3, True, 1)]:
-    contract('C09/ensemble.__update_state/members=%d%s,previous-best=%s' % (_k, '+None' if _none else '', _prev), ['C09', 'C01'],
+    contract('C09/ensemble.__update_state/members=%d%s,previous-best=%s' % (_k, '+None' if _none else '', _prev), ['C09', 'C01', 'C05'],
              ENS + '.__update_state', native=False)(lambda h, k=_k, n=_none, p=_prev: _update_state(h, k, n, p))
 
 
